@@ -678,7 +678,11 @@ class Program:
         self.facts = facts
         self.enums = facts["enums"]
         self.fns = {}
+        self.statics = {}      # initialisers of `static` items (kept apart from functions)
         for j in facts["fns"]:
+            if str(j.get("kind", "")).startswith("Static"):
+                self.statics[j["path"]] = j
+                continue
             f = Fn(j, self)
             self.fns[f.path] = f
         self.adts = {a["path"]: a for a in facts["adts"]}
@@ -715,6 +719,22 @@ class Program:
             g._is_ctor_probe = False
         rets = g.return_locals()
         outer = [a for a in aggs if a[2][0] in rets and not a[2][1]]
+        if not outer and len(aggs) == 1:
+            # `Error::X{..}.at(loc)`: the one aggregate is handed to a locating
+            # wrapper (itself a constructor of a layer around its argument)
+            # whose result is returned
+            for c in g.calls():
+                if c.is_ptr or c.dst is None or c.dst[1] or c.dst[0] not in rets or c.res == path:
+                    continue
+                w = self.ctor_helper(c.res)
+                if w is None or "source" not in w[0].get("fields", []):
+                    continue
+                si = w[1][w[0]["fields"].index("source")]
+                if si is None or si - 1 >= len(c.args) or not is_place_operand(c.args[si - 1]):
+                    continue
+                cp = g.canon_op(c.args[si - 1])
+                if cp and cp[0] == ("agg", aggs[0][0], aggs[0][1]) and len(cp) == 1:
+                    outer = [aggs[0]]
         if len(outer) != 1:
             return None
         bb, i, pl, kd, ao = outer[0]
